@@ -618,8 +618,12 @@ class BezierPath(BooleanOperationsMixin, SampleMixin, object):
         negative means it is clockwise."""
         flat = self.flatten()
         area = 0
-        for s in flat.asSegments():
-            area = area + (s.start.x * s.end.y) - (s.start.y * s.end.x)
+        segs = flat.asSegments()
+        # Measure from the first point: far from the origin the products
+        # x0 * y1 - y0 * x1 cancel down to nothing
+        ox, oy = (segs[0].start.x, segs[0].start.y) if segs else (0.0, 0.0)
+        for s in segs:
+            area = area + ((s.start.x - ox) * (s.end.y - oy)) - ((s.start.y - oy) * (s.end.x - ox))
         area = area / 2.0
         return area
 
